@@ -55,6 +55,11 @@ def model_remove_empty(rk):
     return retype([r for r in rk if r])
 
 
+def current_model(ds):
+    """the model read back from the rankings the dataset reports now (used after a refused mutation)"""
+    return [[[e.value for e in b] for b in r.buckets] for r in ds.rankings]
+
+
 def universe_of(rk):
     seen = []
     for r in rk:
@@ -273,7 +278,18 @@ def history_item(args):
                     exp = model_remove(rk, [x for x in uni if Fraction(sum(1 for r in rk if any(x in b for b in r)), len(rk)) < tv])
                 if universe_of(exp):
                     out.append(payload(ctx, f"EmptyDatasetException although elements remain after step {steps[-1]}", steps))
-                return       # documented: nothing left
+                    return
+                # documented refusal (nothing would be left): the object the caller still holds must stay self-consistent -
+                # all views are compared with the rankings it reports now, and the history goes on from there
+                steps[-1] = steps[-1] + ["refused"]
+                rk = current_model(ds)
+                if not universe_of(rk):
+                    return
+                msg = check_dataset(ds, rk, f"after the refused step {steps}")
+                if msg:
+                    out.append(payload(ctx, msg, steps))
+                    return
+                continue
             except Exception as e:  # noqa
                 if op == "remove":
                     steps.append(["remove_elements", S.members()])
@@ -348,7 +364,16 @@ def replay(p):
                 exp = model_remove(rk, [x for x in uni if sum(1 for r in rk if any(x in b for b in r)) / len(rk) < tv])
                 ds.remove_elements_rate_presence_lower_than(tv)
         except EmptyDatasetException:
-            return bool(universe_of(exp)), f"EmptyDatasetException after {done + [st]}; elements remaining in the model: {universe_of(exp)}"
+            if universe_of(exp):
+                return True, f"EmptyDatasetException after {done + [st]}; elements remaining in the model: {universe_of(exp)}"
+            done.append(st)
+            rk = current_model(ds)
+            if not universe_of(rk):
+                return False, "refused step left no ranking: nothing further to compare"
+            msg = check_dataset(ds, rk, f"after the refused step {done}")
+            if msg:
+                return True, msg
+            continue
         except Exception as e:  # noqa
             return True, f"step {st} raised {type(e).__name__}: {e}"
         done.append(st)
